@@ -48,6 +48,7 @@ class RuleResult:
         self.instances = []
         self.info = {}
         self.anchors = []   # substrings; each must occur in at least one instance key
+        self.undecided = []  # reasons why (part of) the rule could not be decided on this tree
 
     def add(self, key, loc, ok, detail="", nontrivial=True, path=None):
         self.instances.append(Instance(key, loc, ok, detail, nontrivial, path))
@@ -142,7 +143,7 @@ def run_property(pid, tier="quick", replay=None, root=None, write_evidence=True)
         st = selftest(ctx, mod)
         results = mod.run(ctx)
         for r in results:
-            if len(r.instances) < r.floor:
+            if len(r.instances) + len(r.undecided) < r.floor:
                 raise AnalysisBroken("rule %s matched %d instances, below the confirmed floor %d" %
                                      (r.rule, len(r.instances), r.floor))
             for a in r.anchors:
@@ -169,6 +170,8 @@ def run_property(pid, tier="quick", replay=None, root=None, write_evidence=True)
         ro = {"rule": r.rule, "text": r.text, "instances": len(r.instances), "floor": r.floor,
               "violations": []}
         ro.update(r.info)
+        if r.undecided:
+            ro["undecided"] = list(r.undecided)
         for i in r.instances[:3]:
             samples.append(dict(i.as_dict(), rule=r.rule))
         for v in r.violations():
@@ -193,7 +196,12 @@ def run_property(pid, tier="quick", replay=None, root=None, write_evidence=True)
         print(l)
     for l in out_lines:
         print(l)
-    status = 1 if nviol else 0
+    undecided = [(r.rule, u) for r in results for u in r.undecided]
+    for rule, u in undecided:
+        print("UNDECIDED property=%s %s: %s" % (pid, rule, u))
+    # a violation is reported even when another rule could not be decided; with no
+    # violation, an undecided rule makes the run analysis-broken (never a pass)
+    status = 1 if nviol else (2 if undecided else 0)
     if write_evidence and not replay:
         ev = {
             "property_id": pid,
@@ -225,7 +233,7 @@ def run_property(pid, tier="quick", replay=None, root=None, write_evidence=True)
             json.dump(ev, fh, indent=1)
     summary = "property=%s tier=%s rules=%d instances=%d violations=%d known=%d wall=%.1fs" % (
         pid, tier, len(results), total, nviol, len(kf_lines), time.time() - t0)
-    print(("FAIL " if nviol else "OK ") + summary)
+    print(("FAIL " if nviol else ("ANALYSIS-BROKEN " if status == 2 else "OK ")) + summary)
     return status
 
 
